@@ -185,6 +185,9 @@ pub enum Place {
     ThenReread,
     /// pair iden t : A -> A x B: t writes behind something already written
     AfterCopy,
+    /// DirtyFrames inside ReadOffset(k): the frames t allocates lie over released cells full of ones AND start
+    /// k bits later than they otherwise would (k = 1..7 covers every alignment of a fresh frame)
+    DirtyAt(usize),
 }
 
 pub fn placements() -> Vec<Place> {
@@ -230,6 +233,7 @@ pub fn place(t: &Rc<Term>, p: Place) -> Rc<Term> {
             let c = Term::new(Tm::Comp(wn, un), a, &one);
             Term::new(Tm::Pair(c, t.clone()), a, &RT::prod(&one, b))
         }
+        Place::DirtyAt(k) => place(&place(t, Place::DirtyFrames), Place::ReadOffset(k)),
         Place::ThenReread => Term::new(Tm::Pair(t.clone(), Term::new(Tm::Iden, a, a)), a, &RT::prod(b, a)),
         Place::AfterCopy => Term::new(Tm::Pair(Term::new(Tm::Iden, a, a), t.clone()), a, &RT::prod(a, b)),
         Place::DirtyOutput => {
@@ -254,7 +258,7 @@ pub fn unplace(v: &Rc<RV>, p: Place) -> Rc<RV> {
             RV::Pair(a, _) => a.clone(),
             _ => panic!("wrapped result is not a pair"),
         },
-        Place::WriteOffset(_) | Place::DirtyFrames | Place::AfterCopy => match &**v {
+        Place::WriteOffset(_) | Place::DirtyFrames | Place::AfterCopy | Place::DirtyAt(_) => match &**v {
             RV::Pair(_, b) => b.clone(),
             _ => panic!("wrapped result is not a pair"),
         },
